@@ -13,7 +13,7 @@ res = {}
 try:
     demo = os.path.join(src, "demo%s.py" % n); patch = os.path.join(src, "patch%s.diff" % n)
     # candidates were written in the author's own worktree (/tmp/mut_<prop>); point every such path at this confirmation worktree
-    txt = open(demo).read().replace("/tmp/mut2_%s" % prop, wt).replace("/tmp/mut_%s" % prop, wt)
+    txt = open(demo).read().replace("/tmp/mut3_%s" % prop, wt).replace("/tmp/mut2_%s" % prop, wt).replace("/tmp/mut_%s" % prop, wt)
     os.makedirs(os.path.join(wt, "_out"), exist_ok=True)      # same relative position as where the author ran it
     open(os.path.join(wt, "_out", "_demo.py"), "w").write("import sys; sys.path.insert(0, %r)\n" % wt + txt + "\nimport litedram as _l; assert _l.__file__.startswith(%r), _l.__file__\n" % wt)
     env = dict(os.environ, PYTHONPATH=wt)
@@ -31,7 +31,7 @@ try:
     if ok:
         d = os.path.join(V, "seeded", sid); os.makedirs(d, exist_ok=True)
         shutil.copy(patch, os.path.join(d, "patch.diff"))
-        open(os.path.join(d, "demo.py"), "w").write(open(demo).read().replace("/tmp/mut2_%s" % prop, "/repo").replace("/tmp/mut_%s" % prop, "/repo"))
+        open(os.path.join(d, "demo.py"), "w").write(open(demo).read().replace("/tmp/mut3_%s" % prop, "/repo").replace("/tmp/mut2_%s" % prop, "/repo").replace("/tmp/mut_%s" % prop, "/repo"))
         notes = os.path.join(src, "notes%s.md" % n)
         if os.path.exists(notes): shutil.copy(notes, os.path.join(d, "notes.md"))
         meta = dict(id=sid, property=prop, checks=[prop], origin="independent sub-agent given only the property text and a scratch worktree",
